@@ -18,7 +18,8 @@ RULE = ("histories over 2..4 streams of PGN 126720/130816: start message (length
         "step: returned payload == payload of that stream's current message iff this frame completes it, else nothing; non-trivial = >= 2 "
         "streams overlapping inside a message or >= 1 reorder/dup/drop or non-zero padding; distinct = history hash")
 ASSUMPTIONS = [
-    "first frames are neither lost nor duplicated, duplicates do not outlive the next first frame of their stream, consecutive sequence "
+    "first frames are not lost; a first frame is duplicated only as a single stray copy after its (multi-frame) message has been returned "
+    "and then nothing else of that message follows; duplicates do not outlive the next first frame of their stream; consecutive sequence "
     "counters on a stream are distinct (quantifier of the property)",
     "payload observed through the BINARY field of the proprietary fallback definitions; payload bytes carry a per-message tag",
     "frames are presented as 8-byte CAN frames when padded (DLC 8), through decode_tcp; thorough also decode_usb / decode_yacht_devices_string",
@@ -37,7 +38,7 @@ class Interp:
         self.cur = {}      # stream index -> dict(payload, seq, frames, got:set, done:bool)
         self.prev = {}     # stream index -> previous message of that stream (for stale frames)
         self.ops = []
-        self.stats = {"reorder": 0, "dup": 0, "drop": 0, "pad": 0, "overlap": 0, "stale": 0}
+        self.stats = {"reorder": 0, "dup": 0, "drop": 0, "pad": 0, "overlap": 0, "stale": 0, "dupfirst": 0}
 
     def _send(self, stream, data: bytes):
         pgn, src, dest = STREAMS[stream]
@@ -76,6 +77,22 @@ class Interp:
                 return [(f"{tag}|decoder-error|{type(e).__name__}", f"step {len(self.ops) - 1} {op}: {type(e).__name__}: {e}")]
             if r is not None:
                 return [(f"{tag}|stale-frame-delivered", f"step {len(self.ops) - 1} {op}: a frame of the previous message (other sequence counter) produced a message")]
+            return []
+        if op["op"] == "dupfirst":
+            # a stray duplicate of the first frame of a message that has already been returned (multi-frame messages only: a
+            # duplicated single-frame fast packet IS a complete retransmission).  Nothing may be returned for it, and - because
+            # the quantifier lets no other frame of that message follow - the stream stays silent until its next message.
+            self.stats["dupfirst"] += 1
+            c = self.cur[s]
+            c["sealed"] = True
+            tag = "C04|" + self.fmt
+            try:
+                r = self._send(s, c["frames"][0])
+            except Exception as e:
+                return [(f"{tag}|decoder-error|{type(e).__name__}", f"step {len(self.ops) - 1} {op}: {type(e).__name__}: {e}")]
+            if r is not None:
+                return [(f"{tag}|redelivered-by-first-frame-duplicate", f"step {len(self.ops) - 1} {op}: a stray duplicate of a first frame produced a message "
+                         f"(payload {fp.recon(r) if r.id == fp.fallback_id(STREAMS[s][0]) else r.id!r:.60}) that was never sent")]
             return []
         if op["op"] == "drop":
             self.cur[s]["dropped"].add(op["index"])
@@ -125,7 +142,7 @@ class Interp:
 
     def nontrivial(self):
         st_ = self.stats
-        return st_["overlap"] > 0 or st_["reorder"] or st_["dup"] or st_["drop"] or st_["pad"] or st_["stale"]
+        return st_["overlap"] > 0 or st_["reorder"] or st_["dup"] or st_["drop"] or st_["pad"] or st_["stale"] or st_["dupfirst"]
 
 
 def run_history(ops, fmt="ebyte"):
@@ -207,7 +224,7 @@ def make_machine_factory(ctx: Ctx, fmt: str):
 
             def _dupable(self, s):
                 c = self.it.cur.get(s)
-                if c is None:
+                if c is None or c.get("sealed"):
                     return []
                 return [k for k in c["got"] if k != 0]
 
@@ -227,9 +244,20 @@ def make_machine_factory(ctx: Ctx, fmt: str):
                 k = data.draw(st.sampled_from(self._pending(s)), label="index")
                 self._do({"op": "drop", "stream": s, "index": k})
 
+            def _dupfirst_ok(self, s):
+                c = self.it.cur.get(s)
+                return c is not None and c["done"] and len(c["frames"]) >= 2 and not c.get("sealed")
+
+            @precondition(lambda self: any(self._dupfirst_ok(s) for s in range(self.n_streams)))
+            @rule(data=st.data())
+            def duplicate_first_frame_after_completion(self, data):
+                cands = [s for s in range(self.n_streams) if self._dupfirst_ok(s)]
+                s = data.draw(st.sampled_from(cands), label="stream")
+                self._do({"op": "dupfirst", "stream": s})
+
             def _stale_ok(self, s):
                 p, c = self.it.prev.get(s), self.it.cur.get(s)
-                return p is not None and c is not None and len(p["frames"]) > 1
+                return p is not None and c is not None and len(p["frames"]) > 1 and not c.get("sealed")
 
             @precondition(lambda self: any(self._stale_ok(s) for s in range(self.n_streams)))
             @rule(data=st.data())
@@ -333,12 +361,18 @@ def _loss_shard(ctx: Ctx, item):
                 for stale in (1, 2):
                     for posn in range(len(base2) + 1):
                         variants.append(base2[:posn] + [{"op": "stale", "stream": 0, "index": stale}] + base2[posn:])
-                for v in variants:
+                complete1 = set(s1) == {1, 2}
+                for v in variants + ([("dupfirst", variants[0])] if complete1 else []):
+                    dupfirst = isinstance(v, tuple)
+                    if dupfirst:
+                        v = v[1]
                     ops = [{"op": "start", "stream": 0, "payload": p1.hex(), "seq": 1, "pad": pad}]
                     seen = set()
                     for k in s1:
                         ops.append({"op": "frame", "stream": 0, "index": k, "how": "dup" if k in seen else "next"})
                         seen.add(k)
+                    if dupfirst:
+                        ops.append({"op": "dupfirst", "stream": 0})
                     ops.append({"op": "start", "stream": 0, "payload": p2.hex(), "seq": 4, "pad": pad})
                     ops += v
                     res, it = run_history(ops, fmt)
